@@ -1,8 +1,9 @@
 """C12 - attribute classification.  Proof: coq/Props/C12.v.  Tie: exhaustive correspondence of the extracted model with
 mosaik.scenario.parse_attrs and the OutSet/frozenset operators over a 3-attribute universe; the exactness of the
 rejections is decided against an independent set-level specification (spec below)."""
-import itertools, json, random
+import copy, itertools, json, random, warnings
 from .. import common
+import mosaik, mosaik_api_v3
 from mosaik.scenario import parse_attrs
 from mosaik.in_or_out_set import OutSet, parse_set_triple
 
@@ -80,14 +81,55 @@ def opt(l): return '0' if l is None else f"1 {len(l)} {' '.join(str(IDX[x]) for 
 def sset(S): return ('1 ' if isinstance(S, OutSet) else '0 ') + f"{len(S._set) if isinstance(S, OutSet) else len(S)} " + ' '.join(str(IDX[x]) for x in sorted(S._set if isinstance(S, OutSet) else S))
 
 
-def impl(desc, typ):
+def impl1(d, typ):
     try:
-        r = parse_attrs(dict(desc), typ)
+        r = parse_attrs(d, typ)
         return 'ok', r
     except ValueError as e:
         return 'reject', str(e)
     except BaseException as e:
         return 'crash:' + type(e).__name__, None
+
+
+def impl(desc, typ):
+    """the description is parsed twice from the SAME dict object (two model names may share one description): the
+    outcome must be a function of description and type, so the second parse must agree with the first"""
+    d = copy.deepcopy(desc)
+    ir, r = impl1(d, typ)
+    ir2, r2 = impl1(d, typ)
+    if ir2 != ir or (ir == 'ok' and [canon(x) for x in r] != [canon(x) for x in r2]):
+        return 'unstable', f'first parse: {ir} {r if ir != "ok" else [canon(x) for x in r]}; second parse of the same dict: {ir2} {r2 if ir2 != "ok" else [canon(x) for x in r2]}'
+    return ir, r
+
+
+class Stub(mosaik_api_v3.Simulator):
+    """in-process simulator whose meta is given by the scenario (two model names sharing one description dict)"""
+    META = {}
+    def __init__(self): super().__init__({})
+    def init(self, sid, time_resolution=None, **kw): return Stub.META
+    def create(self, num, model): return [{'eid': f'{model}{i}', 'type': model} for i in range(num)]
+    def step(self, time, inputs, max_advance=None): return time + 1
+    def get_data(self, outputs): return {}
+
+
+def started(desc, typ, shared):
+    """world.start with models A and B of the same description (one dict object if shared); returns 'ok', [classes of A, of B] or 'reject'"""
+    d = copy.deepcopy(desc)
+    Stub.META = {'api_version': '3.0', 'type': typ, 'models': {'A': d, 'B': d if shared else copy.deepcopy(desc)}}
+    w = mosaik.World({'S': {'python': 'harness.props.c12:Stub'}}, skip_greetings=True)
+    try:
+        f = w.start('S')
+        res = []
+        for name in ('A', 'B'):
+            m = getattr(f, name)
+            res.append([canon(x) for x in (m.measurement_inputs, m.event_inputs, m.measurement_outputs, m.event_outputs)])
+        return 'ok', res
+    except ValueError as e:
+        return 'reject', str(e)[:200]
+    except BaseException as e:
+        return 'crash:' + type(e).__name__, str(e)[:200]
+    finally:
+        w.shutdown()
 
 
 def run(out, info, tier, seed):
@@ -120,6 +162,21 @@ def run(out, info, tier, seed):
                     violations.append(dict(d, expected='classification ' + str(s), observed=str([canon(x) for x in r]))); break
         reqs.append(f"A_PARSE {TYPES.index(typ)} {int(anyi)} {opt(a)} {opt(T)} {opt(N)} {opt(P)} {opt(Q)}")
         impls.append('ok ' + ' '.join(canon(x) for x in r) if ir == 'ok' else ir)
+    # starting a simulator: two model names with the same description (the same dict object, or two equal ones) - both are
+    # classified as the specification says, or the start is rejected
+    nstart = 0
+    with warnings.catch_warnings():
+        warnings.simplefilter('ignore')
+        for k, (a, T, N, P, Q, anyi, typ) in enumerate(rng.sample(space, 150 if tier == 'quick' else 1500)):
+            desc = make_desc(a, T, N, P, Q, anyi); nstart += 1
+            try: sp = spec(desc, typ); sr = 'ok'
+            except Reject as e: sp = str(e); sr = 'reject'
+            ir, r = started(desc, typ, shared=(k % 3 != 0))
+            d = dict(kind='start', desc=desc, type=typ, shared=(k % 3 != 0))
+            if ir != sr:
+                violations.append(dict(d, expected=sr + ('' if sr == 'ok' else f' ({sp})'), observed=f'{ir} ({r})'))
+            elif ir == 'ok' and (r[0] != r[1] or r[0] != [canon(x) for x in parse_attrs(copy.deepcopy(desc), typ)]):
+                violations.append(dict(d, expected='both models classified as parse_attrs classifies the description', observed=str(r)))
     # set expressions: all pairs of finite / co-finite sets over the universe x the three operators and ==
     sets = [frozenset(c) for r_ in range(4) for c in itertools.combinations(U3, r_)] + [OutSet(c) for r_ in range(4) for c in itertools.combinations(U3, r_)]
     nops = 0
@@ -146,8 +203,9 @@ def run(out, info, tier, seed):
     else:
         out.add_obligation('correspondence: extracted model available', False, info.driver_msg[-300:])
     for v in violations[:1]: out.violations.append(v)
-    out.coverage = {'evaluations': len(cases) + nops, 'distinct_nontrivial': nontriv, 'exhaustive': exhaustive, 'traces_validated_against_impl': len(reqs) if info.driver_ok else 0,
+    out.coverage = {'evaluations': len(cases) + nops + nstart, 'distinct_nontrivial': nontriv, 'exhaustive': exhaustive, 'traces_validated_against_impl': len(reqs) if info.driver_ok else 0,
                     'rule': f'descriptions: each of attrs/trigger/non-trigger/persistent/non-persistent absent or any subset of {{a,b,c}} x any_inputs x 3 types = {len(space)} (thorough: all; quick: seeded sample of 12000); '
+                            f'every description is parsed twice from the same dict object (same outcome required); {nstart} sampled descriptions are started as two models A, B of one in-process simulator (two thirds sharing one dict object); '
                             f'set expressions: all {len(sets)}^2 pairs of finite/co-finite sets x (-, &, |, ==); non-trivial = accepted descriptions (classification compared elementwise incl. an attribute outside the universe)',
                     'samples': [dict(desc=make_desc(*cases[0][:6]), type=cases[0][6]), {'request': reqs[0], 'implementation': impls[0]}],
                     'verdict_histogram': hist, 'monitor_failures': len(violations), 'correspondence_mismatches': len(mism)}
@@ -155,6 +213,14 @@ def run(out, info, tier, seed):
 
 def replay(path, out):
     r = json.load(open(path))
+    if r.get('kind') == 'start':
+        ir, res = started(r['desc'], r['type'], r['shared'])
+        try: spec(r['desc'], r['type']); sr = 'ok'
+        except Reject as e: sr = 'reject'
+        print('world.start:', ir, res, '| specification:', sr)
+        bad = ir != sr or (ir == 'ok' and res[0] != res[1])
+        if bad: print(f'VIOLATION property=C12 replay={path}')
+        return 1 if bad else 0
     if r.get('kind') != 'attrs':
         print(json.dumps(r, indent=1)[:2000]); print('re-run ./check C12'); return 1
     ir, res = impl(r['desc'], r['type'])
